@@ -413,6 +413,32 @@ def gen_cases(tier, seed):
             ts.append(dict({'kind': k, 'outcome': rng.choice(OUTCOMES + ['ok'] * 5), 'size': 5, 'subs': 1}, **extra))
         cases.append({'seed': rng.randrange(1 << 30), 'permits': rng.choice([2, 3, 128]), 'transfers': ts, 'order': 'seeded',
                       'exit': rng.choice(['shutdown', 'with']), 'crt_threads': rng.choice([1, 3])})
+    # one preemption at every statement of the glue (coordinator, future, submit / shutdown paths, completion callbacks, temp-file
+    # handler): the nth thread reaching the line is held until every other thread (stub CRT threads, submitter, exit) has run
+    # as far as it can
+    from .. import crtstub, yieldinj
+
+    crtstub.install()
+    import s3transfer.crt  # noqa: F401
+
+    lines = [l for l in yieldinj.all_lines(['crt.py'])
+             if l[2].startswith(('CRTTransferCoordinator.', 'CRTTransferFuture.', 'CRTTransferManager._submit_transfer', 'CRTTransferManager._shutdown',
+                                 'CRTTransferManager._cancel_transfers', 'CRTTransferManager._finish_transfers', 'CRTTransferManager._wait_transfers_done',
+                                 'CRTTransferManager._release_semaphore', 'CRTTransferManager.__exit__', 'RenameTempFileHandler.__call__',
+                                 'S3ClientArgsCreator.get_crt_callback', 'S3ClientArgsCreator.get_make_request_args', 'S3ClientArgsCreator._get_make_request_args',
+                                 'S3ClientArgsCreator._default_get_make_request_args', 'OnBodyFileObjWriter.__call__'))
+             and not l[2].endswith('__init__')]
+    for line in lines:
+        for nth in ((0, 1) if quick else (0, 1, 2, 4)):
+            for rep in range(1 if quick else 3):
+                n = rng.randint(2, 5)
+                ts = []
+                for j in range(n):
+                    k, extra = rng.choice(kinds)
+                    ts.append(dict({'kind': k, 'outcome': rng.choice(OUTCOMES + ['ok', 'ok']), 'size': rng.choice([0, 5, 40]), 'subs': rng.choice([1, 2])}, **extra))
+                cases.append({'seed': rng.randrange(1 << 30), 'permits': rng.choice([1, 2, 3]), 'transfers': ts, 'order': rng.choice(['fifo', 'reverse', 'seeded']),
+                              'exit': rng.choice(['shutdown', 'shutdown_cancel', 'with', 'with_exc']), 'crt_threads': rng.choice([2, 3]),
+                              'window': {'file': 'crt.py', 'line': line[1], 'nth': nth, 'action': 'pause', 'name': f'crt.py:{line[1]}:{line[2]}', 'wait': 0.2}})
     rng.shuffle(cases)
     return cases
 
@@ -421,7 +447,17 @@ def run_case(case):
     import hashlib
     import json
 
-    run = run_spec(case)
+    inj = None
+    if case.get('window'):
+        from .. import yieldinj
+
+        inj = yieldinj.Injector(p=0.0, seed=case['seed'], files=['crt.py'], windows=[case['window']]).install()
+    try:
+        run = run_spec(case)
+    finally:
+        if inj is not None:
+            inj.uninstall()
+    window_hit = bool(inj.window_hits) if inj is not None else None
     try:
         if run.hang is not None:
             viol = []
@@ -433,6 +469,9 @@ def run_case(case):
             return {'verdict': 'violated' if viol else 'inconclusive', 'key': None, 'violations': viol, 'stats': {'hang_' + run.hang[0]: 1},
                     'summary': {'hang': run.hang, 'tail': [trim(e) for e in run.events[-20:]]}, 'fatal': True}
         viol, stats = evaluate(case, run)
+        if window_hit is not None:
+            stats['window_cases'] = 1
+            stats['window_hits'] = 1 if window_hit else 0
         nontrivial = stats['non_ok'] > 0 or len(case['transfers']) > case.get('permits', 3)
         key = hashlib.sha1(json.dumps(case, sort_keys=True).encode()).hexdigest()[:16] if nontrivial else None
         res = {'verdict': 'violated' if viol else 'held', 'key': key, 'violations': viol[:8], 'stats': stats,
